@@ -17,9 +17,13 @@ pub fn c04(eng: &mut Engine, rng: &mut Rng, thorough: bool, out: &mut Out) -> Ca
     for i in 0..n {
         let w3c = i % 2 == 1;
         let with_rev = i % 3 == 0;
+        eng.incremental = false;
         let plan = gen_honest_plan(rng, &eng.cast, w3c, with_rev);
         let o = honest_vopts(&eng.cast, &plan);
-        let cls = format!("honest:{}:{}", if w3c { "w3c" } else { "legacy" }, if with_rev { "rev" } else { "plain" });
+        // every other revocation flow: the holder keeps a state and updates it list by list (other credentials of the registry are
+        // revoked and re-issued on the way) instead of deriving it afresh for the list it presents
+        eng.incremental = with_rev && (i / 6) % 2 == 1;
+        let cls = format!("honest:{}:{}", if w3c { "w3c" } else { "legacy" }, if with_rev { if eng.incremental { "rev-incremental-state" } else { "rev" } } else { "plain" });
         // every third plan is broken in one way the prover must refuse (exercises the prover model's error paths)
         let mut plan = plan;
         let broken = i % 3 == 2;
@@ -73,6 +77,7 @@ pub fn c04(eng: &mut Engine, rng: &mut Rng, thorough: bool, out: &mut Out) -> Ca
             emit_legacy(eng, out, &mut cases, "c04.legacy", "honest:legacy:value-restriction-name-respelled", "", Some(true), &b.pres, &b.ghosts, &b.agg, &b.req, &o, "verdict");
         }
     }
+    eng.incremental = false;
     cases
 }
 
@@ -336,6 +341,67 @@ pub fn c01(eng: &mut Engine, rng: &mut Rng, thorough: bool, out: &mut Out) -> Ca
                 emit_w3c(eng, out, &mut cases, "c01.w3c", "c01:multi-pred:honest", "", Some(true), &b.pres, &b.ghosts, &b.agg, true, &req0, &o, "safety");
             }
         }
+        // attribute groups: P answers the group R0 asked for (also with one attribute spelled twice: the normal form is not injective);
+        // R asks the same referent for a group in which one name is replaced by / extended with another attribute. An attribute R
+        // names that P does not answer must make verification fail.
+        if round < 2 || thorough {
+            let ha = eng.cast.cred("a_alice");
+            let va = eng.cast.creds[ha].values.clone();
+            let (n0, n1, n2, n3) = (va[0].0.clone(), va[1].0.clone(), va[2].0.clone(), va[3].0.clone());
+            let groups0: Vec<Vec<String>> = vec![
+                vec![n0.clone(), n0.to_uppercase()],
+                vec![n0.clone(), format!(" {} ", n0), n1.clone()],
+                vec![n0.clone(), n1.clone()],
+                vec![n2.clone(), n2.to_uppercase(), format!("{} ", n2)],
+            ];
+            for g0 in groups0 {
+                for revealed in [true, false] {
+                    let plan = Plan {
+                        creds: vec![CredUse { held: ha, state_list: None, ts_only: None }],
+                        refs: vec![RefPlan { referent: "grp".into(), kind: Kind::Group(g0.clone()), cred: Some(0), revealed, restrictions: None, non_revoked: None }],
+                        global_nr: None, nonce: format!("{}", 1000 + rng.below(1_000_000_000)), holder: 0 };
+                    let r0 = plan.request_json();
+                    let bl = eng.build_legacy(&plan).ok();
+                    let bw = eng.build_w3c(&plan).ok();
+                    let answered: Vec<String> = g0.iter().map(|n| norm(n)).collect();
+                    let mut variants: Vec<(String, Vec<String>)> = vec![("same".into(), g0.clone())];
+                    for other in [&n1, &n2, &n3, &"salary".to_string()] {
+                        for pos in 0..g0.len() {
+                            let mut g = g0.clone();
+                            g[pos] = other.clone();
+                            variants.push(("name-replaced".into(), g));
+                        }
+                        let mut g = g0.clone();
+                        g.push(other.clone());
+                        variants.push(("name-added".into(), g));
+                    }
+                    for pos in 0..g0.len() {
+                        let mut g = g0.clone();
+                        g.remove(pos);
+                        if !g.is_empty() {
+                            variants.push(("name-dropped".into(), g));
+                        }
+                    }
+                    for (what, g) in variants {
+                        let mut r = r0.clone();
+                        r["requested_attributes"]["grp"]["names"] = json!(g);
+                        let Some(req) = req_from(&r) else { continue };
+                        let unanswered = g.iter().any(|n| !answered.contains(&norm(n)));
+                        // unrevealed: the credential need only *hold* the attributes — every gvt attribute is held; an absent one is not
+                        let exp = if what == "same" { Some(true) } else if unanswered && (revealed || g.iter().any(|n| n == "salary")) { Some(false) } else { None };
+                        let cls = format!("c01:group:{}:{what}:{}", if revealed { "revealed" } else { "unrevealed" }, if unanswered { "unanswered-name" } else { "answered-names" });
+                        if let Some(b) = &bl {
+                            emit_legacy(eng, out, &mut cases, "c01.legacy", &cls, "", exp, &b.pres, &b.ghosts, &b.agg, &req, &o, "safety");
+                        }
+                        if let Some(b) = &bw {
+                            // W3C: an unrevealed attribute is "held" whenever the schema has it
+                            let expw = if what == "same" { Some(true) } else if g.iter().any(|n| n == "salary") { Some(false) } else { None };
+                            emit_w3c(eng, out, &mut cases, "c01.w3c", &cls, "", expw, &b.pres, &b.ghosts, &b.agg, true, &req, &o, "safety");
+                        }
+                    }
+                }
+            }
+        }
         // two credentials: referents re-pointed at the other credential
         for (first, second) in [("a_alice", "c_alice"), ("a_alice", "b_alice"), ("c_alice", "a2_alice")] {
             if round > 1 && !thorough {
@@ -423,9 +489,13 @@ pub fn c02(eng: &mut Engine, rng: &mut Rng, thorough: bool, out: &mut Out) -> Ca
                     ("r2_alice", None, Some(20), vec![1], "revoked:no-state-forged-timestamp", true),
                     ("r2_alice", None, None, vec![1], "revoked:no-state-no-timestamp", true),
                     ("r1_alice", None, Some(20), vec![1], "valid:no-state-forged-timestamp", false),
+                    // the honest prover API with a stale state but the timestamp of a later list (the API takes both, unrelated)
+                    ("r2_alice", Some(0), Some(20), vec![0, 1], "revoked:stale-state-named-later-timestamp", true),
+                    ("r3_alice", Some(0), Some(20), vec![0, 1, 2], "revoked:stale-state-named-later-timestamp", true),
+                    ("r1_alice", Some(0), Some(20), vec![0, 1], "valid:stale-state-named-later-timestamp", false),
                 ];
                 for (held, state_list, ts_only, lists, cls0, revoked) in scen {
-                    let ts = state_list.map(RegHist::ts).or(ts_only).unwrap_or(20);
+                    let ts = ts_only.or(state_list.map(RegHist::ts)).unwrap_or(20);
                     let iv = match rng.below(3) {
                         0 => json!({"from": 0, "to": ts}),
                         1 => json!({"from": ts, "to": ts}),
@@ -479,7 +549,8 @@ pub fn c02(eng: &mut Engine, rng: &mut Rng, thorough: bool, out: &mut Out) -> Ca
                             }
                             let o2 = VOpts { lists: Some(vec![(ri, 0), (ri, 1), (ri, 2)]), rev_reg_defs: true, ..Default::default() };
                             let sig2 = c02_sig(fmt, revoked, &b.ghosts, strip_id, unrev, forged || set_ts.is_some());
-                            let exp2 = if revoked { Some(false) } else { None };
+                            // naming the timestamp of the list the state was really derived for (valid then) is a legitimate presentation
+                            let exp2 = if revoked && !(set_ts == Some(10) && state_list == Some(0)) { Some(false) } else { None };
                             emit_legacy(eng, out, &mut cases, &fam, &format!("{cls}:{ecls}"), &sig2, exp2, &p, &b.ghosts, &b.agg, &b.req, &o2, "safety");
                         }
                         // revealed <-> unrevealed rewrite of the referent that carries the interval
@@ -682,6 +753,21 @@ pub fn c03(eng: &mut Engine, rng: &mut Rng, thorough: bool, out: &mut Out) -> Ca
                     emit_legacy(eng, out, &mut cases, "c03.legacy", "c03:random-shape:encoded-altered", "", Some(false), &p, &b.ghosts, &b.agg, &b.req, &ov, "safety");
                 }
                 let groups: Vec<String> = b.pres["requested_proof"]["revealed_attr_groups"].as_object().map(|o| o.keys().cloned().collect()).unwrap_or_default();
+                // a referent re-presented in the other shape with a value nobody signed: group as one single value, single as a group
+                for g in &groups {
+                    let mut p = b.pres.clone();
+                    let e = p["requested_proof"]["revealed_attr_groups"].as_object_mut().unwrap().remove(g).unwrap();
+                    p["requested_proof"]["revealed_attrs"][g.as_str()] = json!({"sub_proof_index": e["sub_proof_index"], "raw": "forged", "encoded": "123456789"});
+                    emit_legacy(eng, out, &mut cases, "c03.legacy", "c03:random-shape:group-as-forged-single", "", Some(false), &p, &b.ghosts, &b.agg, &b.req, &ov, "safety");
+                }
+                let singles2: Vec<String> = b.pres["requested_proof"]["revealed_attrs"].as_object().map(|o| o.keys().cloned().collect()).unwrap_or_default();
+                for r in &singles2 {
+                    let mut p = b.pres.clone();
+                    let e = p["requested_proof"]["revealed_attrs"].as_object_mut().unwrap().remove(r).unwrap();
+                    let name = b.req.value().requested_attributes.get(r).and_then(|a| a.name.clone()).unwrap_or_else(|| "name".into());
+                    p["requested_proof"]["revealed_attr_groups"][r.as_str()] = json!({"sub_proof_index": e["sub_proof_index"], "values": {name: {"raw": "forged", "encoded": "123456789"}}});
+                    emit_legacy(eng, out, &mut cases, "c03.legacy", "c03:random-shape:single-as-forged-group", "", Some(false), &p, &b.ghosts, &b.agg, &b.req, &ov, "safety");
+                }
                 for g in groups {
                     let members: Vec<String> = b.pres["requested_proof"]["revealed_attr_groups"][g.as_str()]["values"].as_object().map(|o| o.keys().cloned().collect()).unwrap_or_default();
                     for m in members {
@@ -889,6 +975,53 @@ pub fn c05(eng: &mut Engine, rng: &mut Rng, thorough: bool, out: &mut Out) -> Ca
                 }
             }
         }
+        // a revocable credential with its non-revocation proof: the definition the presentation names (not the one the registry
+        // definition points back to, not one merely known to the verifier) must be the one whose keys verify the proof
+        {
+            let hr = eng.cast.cred("r1_alice");
+            let ri = eng.cast.creds[hr].rev.unwrap().0;
+            let ir = eng.cast.creds[hr].def;
+            let plan = rev_plan(rng, eng, "r1_alice", Some(1), None, if round % 2 == 0 { "global" } else { "revealed" }, json!({"from": 0, "to": 100}));
+            let orev = VOpts { lists: Some(vec![(ri, 1)]), rev_reg_defs: true, ..Default::default() };
+            let wpool = eng.cast.w.clone();
+            let others: Vec<&crate::world::Def> = wpool.defs.iter().enumerate().filter(|(i, _)| *i != ir).map(|(_, d)| d).collect();
+            if let Ok(b) = eng.build_legacy(&plan) {
+                emit_legacy(eng, out, &mut cases, "c05.legacy", "c05:revocable:honest", "", Some(true), &b.pres, &b.ghosts, &b.agg, &b.req, &orev, "safety");
+                for (n, od) in others.iter().enumerate() {
+                    if n > 1 && !thorough {
+                        break;
+                    }
+                    let mut p = b.pres.clone();
+                    p["identifiers"][0]["cred_def_id"] = json!(od.cid.0);
+                    emit_legacy(eng, out, &mut cases, "c05.legacy", "c05:revocable:relabelled-definition", "", Some(false), &p, &b.ghosts, &b.agg, &b.req, &orev, "safety");
+                    p["identifiers"][0]["schema_id"] = json!(od.sid.0);
+                    emit_legacy(eng, out, &mut cases, "c05.legacy", "c05:revocable:relabelled-definition-and-schema", "", Some(false), &p, &b.ghosts, &b.agg, &b.req, &orev, "safety");
+                }
+                for other in [ia, ic] {
+                    let o2 = VOpts { swap_def: Some((ir, other)), ..orev.clone() };
+                    emit_legacy(eng, out, &mut cases, "c05.legacy", "c05:revocable:def-swapped", "", Some(false), &b.pres, &b.ghosts, &b.agg, &b.req, &o2, "safety");
+                }
+            }
+            if let Ok(bw) = eng.build_w3c(&plan) {
+                emit_w3c(eng, out, &mut cases, "c05.w3c", "c05:revocable:honest", "", Some(true), &bw.pres, &bw.ghosts, &bw.agg, true, &bw.req, &orev, "safety");
+                for (n, od) in others.iter().enumerate() {
+                    if n > 1 && !thorough {
+                        break;
+                    }
+                    let mut p = bw.pres.clone();
+                    let mut pv = p.verifiable_credential[0].get_credential_presentation_proof().unwrap().clone();
+                    pv.cred_def_id = od.cid.clone();
+                    set_w3c_proof(&mut p.verifiable_credential[0], &pv, None, None);
+                    emit_w3c(eng, out, &mut cases, "c05.w3c", "c05:revocable:relabelled-definition", "", Some(false), &p, &bw.ghosts, &bw.agg, true, &bw.req, &orev, "safety");
+                    pv.schema_id = od.sid.clone();
+                    set_w3c_proof(&mut p.verifiable_credential[0], &pv, None, None);
+                    p.verifiable_credential[0].issuer = od.issuer.clone();
+                    emit_w3c(eng, out, &mut cases, "c05.w3c", "c05:revocable:relabelled-definition-schema-issuer", "", Some(false), &p, &bw.ghosts, &bw.agg, true, &bw.req, &orev, "safety");
+                }
+                let o2 = VOpts { swap_def: Some((ir, ia)), ..orev.clone() };
+                emit_w3c(eng, out, &mut cases, "c05.w3c", "c05:revocable:def-swapped", "", Some(false), &bw.pres, &bw.ghosts, &bw.agg, true, &bw.req, &o2, "safety");
+            }
+        }
         // another link secret for all credentials: the honest prover API with the wrong secret
         {
             let mut plan2 = plan.clone();
@@ -1045,6 +1178,34 @@ pub fn c06(eng: &mut Engine, rng: &mut Rng, thorough: bool, out: &mut Out) -> Ca
                         // "held, unrevealed" by the sibling that does meet the restriction (judged by the model); a predicate needs
                         // the predicate proof, which only the mapped credential has
                         let exp = if expect { Some(true) } else if referent == "sib_pred" { Some(false) } else { None };
+                        emit_w3c(eng, out, &mut cases, "c06.w3c", &cls, "", exp, &b.pres, &b.ghosts, &b.agg, true, &req, &o, "safety");
+                    }
+                }
+            }
+        }
+        // a value restriction that names the revealed attribute in another spelling and demands a value the credential does not
+        // have is not satisfied (alone, under $or with another false leaf, under $and with a true one; also as marker on a wrong name)
+        {
+            let rp = plan.refs.iter().find(|x| matches!(x.kind, Kind::Single(_)) && x.revealed).unwrap().clone();
+            let n = match &rp.kind { Kind::Single(n) => n.clone(), _ => String::new() };
+            let held = plan.creds[rp.cred.unwrap()].held;
+            let cid = eng.cast.w.defs[eng.cast.creds[held].def].cid.0.clone();
+            for sp in [n.to_uppercase(), format!(" {n}"), { let mut c = n.clone(); c.insert(1, ' '); c }, n.clone()] {
+                for (shape, q) in [
+                    ("leaf", json!({ format!("attr::{sp}::value"): "Somebody Else" })),
+                    ("or-false", json!({"$or": [{ format!("attr::{sp}::value"): "Somebody Else" }, {"cred_def_id": "did:web:nobody/cd"}]})),
+                    ("and-true", json!({"$and": [{ format!("attr::{sp}::value"): "Somebody Else" }, {"cred_def_id": cid}]})),
+                    ("in", json!({ format!("attr::{sp}::value"): {"$in": ["Somebody Else", "Nobody"]} })),
+                ] {
+                    let mut r = r0.clone();
+                    r["requested_attributes"][rp.referent.as_str()]["restrictions"] = q;
+                    let Some(req) = req_from(&r) else { continue };
+                    let cls = format!("c06:value-restriction-wrong-value:{}:{shape}", if sp == n { "same-spelling" } else { "other-spelling" });
+                    if let Some(b) = &bl {
+                        emit_legacy(eng, out, &mut cases, "c06.legacy", &cls, "", Some(false), &b.pres, &b.ghosts, &b.agg, &req, &o, "safety");
+                    }
+                    if let Some(b) = &bw {
+                        let exp = if single { Some(false) } else { None };
                         emit_w3c(eng, out, &mut cases, "c06.w3c", &cls, "", exp, &b.pres, &b.ghosts, &b.agg, true, &req, &o, "safety");
                     }
                 }
